@@ -8,6 +8,7 @@ extern long aw_fail_at;     /* index (0-based, counted from aw_arm) of the alloc
 extern long aw_fired;       /* number of injected failures that happened */
 extern size_t aw_cur_bytes; /* live bytes (usable size) */
 extern size_t aw_peak_bytes;/* peak of aw_cur_bytes since aw_arm() */
+extern size_t aw_max_req;   /* largest single request ever made (failed ones included); reset it by assignment */
 void aw_arm(long fail_at);
 void aw_disarm(void);
 #endif
